@@ -1748,6 +1748,7 @@ func (s *Store) ExecuteTransaction(transaction *Transaction) error {
 			return errors.New("no dataset " + k)
 		}
 
+		verifhook.Point("txn.count-lock")
 		ds.(*Dataset).WriteLock.Lock()
 		err = ds.(*Dataset).updateDataset(v, nil)
 		ds.(*Dataset).WriteLock.Unlock()
